@@ -21,6 +21,16 @@ GRAMMAR_MTIMES = {"now": None, "old": 631152000, "future": 2240611200, "same_as_
 
 INVALID_SYNTAX = [b"@export\nA = 'a' ;;\n", b"A = ( 'a' ;\n", b"@export A 'a';\n", b"A = 'a'"]
 INVALID_SEMANTIC = [b"@export\n@string\nA = 'a';\n", b"A = !(x:B) 'a';\nB = 'b';\n", b"A = @:B c:C;\nB = 'b';\nC = 'c';\n", b"A = >Missing;\n"]
+def tricky_invalid():
+    import c15
+    mark = "\u00ab\u00bb"
+    parts = c15.TRICKY_LEX.split(mark)
+    out = []
+    for mi in (2, 3, 5, 6):
+        out.append(("".join(p + (" ;; " if k == mi else "") for k, p in enumerate(parts[:-1])) + parts[-1]).encode())
+    return out
+
+
 INVALID_UTF8 = [b"@export\nA = 'a';\n# \xff\xfe\n", b"A = '\xc3';\n"]
 
 
@@ -39,6 +49,11 @@ def valid_pool():
     pool.append(b"# c1\n@export\nA = 'a';\n")    # comment only
     pool.append(b"# c2\n@export\nA = 'a';\n")
     pool.append(b"@export\nA = 'b';\n")
+    import c15
+    tricky = c15.TRICKY_LEX.replace("\u00ab\u00bb", "")
+    pool.append(tricky.encode())                                   # quotes and '#' inside literals, quotes in comments
+    pool.append(tricky.replace("'a'..'z'", "'a'..'y'").encode())  # edit on a line with an escaped quote and a '#' literal
+    pool.append(tricky.replace("# last line comment", "# last line").encode())
     big = open(os.path.join(procsim.REPO, "grammar.ebnf"), "rb").read()
     pool.append(big + b"\n# tail 1\n")          # long texts that differ only after several kilobytes
     pool.append(big + b"\n# tail 2\n")
@@ -95,7 +110,7 @@ def gen_history(seed, i, valid, tier):
         elif k == "edit_bad":
             kinds = ["syntax", "semantic", "utf8", "removed", "dangling", "eio"] + (["is_dir"] if mode == "file" else [])
             kind = rng.choice(kinds)
-            ops.append(["edit", rng.below(len(slots)), kind, rng.below(4), rng.weighted([("now", 60), ("old", 30), ("same_as_destination", 10)])])
+            ops.append(["edit", rng.below(len(slots)), kind, rng.below(8), rng.weighted([("now", 60), ("old", 30), ("same_as_destination", 10)])])
         elif k == "prefix":
             ops.append(["prefix", rng.below(len(prefixes))])
         elif k == "delete":
@@ -210,7 +225,8 @@ def execute_history(cfg, d, valid, scratch, stats=None):
             if kind == "valid":
                 sl.text = valid[op[3] % len(valid)]
             elif kind == "syntax":
-                sl.text = INVALID_SYNTAX[op[3] % len(INVALID_SYNTAX)]
+                pool_syn = INVALID_SYNTAX + tricky_invalid()
+                sl.text = pool_syn[op[3] % len(pool_syn)]
             elif kind == "semantic":
                 sl.text = INVALID_SEMANTIC[op[3] % len(INVALID_SEMANTIC)]
             elif kind == "utf8":
